@@ -270,11 +270,14 @@ func (pkt *Packet) authenticate(b []byte, key []byte) error {
 		return err
 	}
 
+	// The encrypted extension fields are delimited by the ciphertext length, so
+	// the minimum length that tells the last clear-text field from a legacy MAC
+	// does not apply to them: a short cookie is a field like any other.
 	pos := 0
-	for len(decrytedBuf)-pos >= 28 {
+	for len(decrytedBuf)-pos >= 4 {
 		var eh extHdr
 		eh.unpack(decrytedBuf, pos)
-		if eh.Length < 4 {
+		if eh.Length < 4 || int(eh.Length) > len(decrytedBuf)-pos {
 			return errUnexpectedExtHdrLen
 		}
 		pos += 4
